@@ -35,6 +35,8 @@ type SolverStats struct {
 	FallbackBy   map[string]int
 	CrossChecked int
 	HardDirect   int
+	EncodeTime   time.Duration
+	BytesSent    int64
 	Time         time.Duration
 	FallbackTime time.Duration
 	Errors       []string
@@ -87,6 +89,9 @@ func (s *Solver) start() error {
 	s.stack = nil
 	s.defs = []map[int]bool{{}}
 	s.defined = map[int]bool{}
+	if p := os.Getenv("VERIF_SOLVER_LOG"); p != "" && s.log == nil {
+		s.log, _ = os.Create(fmt.Sprintf("%s.%d", p, os.Getpid()))
+	}
 	s.send("(set-option :print-success false)")
 	s.send(fmt.Sprintf("(set-option :timeout %d)", s.TimeoutMS))
 	return nil
@@ -111,6 +116,7 @@ func (s *Solver) send(line string) {
 	if s.log != nil {
 		fmt.Fprintln(s.log, line)
 	}
+	s.Stats.BytesSent += int64(len(line) + 1)
 	io.WriteString(s.in, line)
 	io.WriteString(s.in, "\n")
 }
@@ -258,6 +264,7 @@ func (s *Solver) Check(pc []*Term, extra *Term, modelVars []*Term) (Result, Mode
 		s.count(r)
 		return r, m
 	}
+	tSync := time.Now()
 	s.sync(pc)
 	s.push()
 	if extra != nil {
@@ -267,7 +274,10 @@ func (s *Solver) Check(pc []*Term, extra *Term, modelVars []*Term) (Result, Mode
 	for _, v := range modelVars {
 		s.define(v)
 	}
-	s.send("(check-sat)")
+	s.Stats.EncodeTime += time.Since(tSync)
+	// the SAT-based QF_BV tactic: z3's incremental core takes seconds on 64-bit
+	// adder/comparator queries that bit-blasting decides in milliseconds (measured)
+	s.send("(check-sat-using qfbv)")
 	line, err := s.readLine()
 	for err == nil && line == "" {
 		line, err = s.readLine()
